@@ -1,5 +1,11 @@
 import re
+import sys
 from fractions import Fraction as frac
+
+# Integers are arbitrarily large in Ka. CPython (3.11+) refuses to convert
+# integers of more than 4300 digits to or from text unless told otherwise.
+if hasattr(sys, "set_int_max_str_digits"):
+    sys.set_int_max_str_digits(0)
 
 VAR_REGEX = re.compile(r"[a-zA-Z€$£¥][_a-zA-Z0-9€$£¥]*")
 
